@@ -490,6 +490,27 @@ let run_fn k c impl =
        end
      | Stdlib.Error _ -> ());
     "fn-" ^ f
+  | Some "addr" ->
+    let m = match pton_unspec (bytes_of_str arg) with
+      | None -> "fail"
+      | Some a ->
+        let t = ntop a in
+        Printf.sprintf "ok a=%s text=%s back=%s" (addr_hex a) (hexstr_opt (Some (str_of_bytes t)))
+          (match pton_unspec t with Some b -> addr_hex b | None -> "fail") in
+    cmp k "addr" m impl;
+    (* the premise addr_good of C16_csv_fixpoint, checked on the real ares_inet_ntop / ares_inet_pton *)
+    (match impl_line impl k "addr" with
+     | Some l when starts_with "ok" l ->
+       let fs = fields l in
+       let a = fget fs "a" and t = unhex (fget fs "text") in
+       if fget fs "back" <> a then pr "FAIL %d pton-ntop-roundtrip a=%s text=%s back=%s\n" k a t (fget fs "back");
+       let ok_char c = (c >= '0' && c <= '9') || (c >= 'a' && c <= 'f') || c = ':' || c = '.' in
+       let shape = t <> "" && String.length t <= 45 && String.for_all ok_char t &&
+                   (String.length a <> 8 || (String.for_all (fun c -> (c >= '0' && c <= '9') || c = '.') t && String.length t <= 15
+                                             && (match String.index_opt t '.' with Some i -> i > 0 && i < 4 | None -> false))) in
+       if not shape then pr "FAIL %d ntop-shape a=%s text=%s\n" k a t
+     | _ -> ());
+    "fn-addr"
   | Some "alias" ->
     let name = match pstr c "name" with Some n -> n | None -> "" in
     List.iter (fun with_junk ->
